@@ -46,7 +46,9 @@ def impl(x64: bool = True):
     os.environ.setdefault("OMP_NUM_THREADS", "1")
     os.environ[GUARD_ENV] = "1"
     import logging
+    import warnings
 
+    warnings.filterwarnings("ignore")
     import jax
     import jax._src.util as _u
 
